@@ -83,3 +83,13 @@ def c05_dumper_casts_values(sc, rec):
     d = rec.get('detail') or {}
     return (rec.get('clause') == 'transparency:rows' and rec.get('key') == 'dumper-casts-values' and d.get('equals_validate') is True
             and d.get('observer') in ('dump_to_path', 'dump_to_zip') and ((sc or {}).get('observer') or {}).get('step') == d.get('observer'))
+
+
+def c05_consumer_stops_early(sc, rec):
+    """The suffix contains a user rows-function that stops pulling a resource before its end (the generated `truncate`
+    step, itertools.islice): the rows it never asks for never pass the observer, so what the observer persisted /
+    reported is incomplete (or, for dump_to_path, its descriptor lists data files that were never written)."""
+    suffix = (sc or {}).get('suffix') or []
+    if not any(sp.get('step') == 'truncate' for sp in suffix):
+        return False
+    return rec.get('clause') in ('completeness:resources', 'completeness:rows', 'finalizer:early')
